@@ -37,6 +37,17 @@ CHECKS = {
         design_ref='DESIGN.md 5 / C06',
         technique='Coq proof (induction on expr, gcd/lcm divisibility) + extracted-model correspondence + brute-force oracle',
         note=NOTE_COMMON + ' Known finding D12.'),
+    'C07': dict(
+        category='proof',
+        text='Coq theorems about the model of parse_plural_forms/check_plurals: every "f(x) != k" claim is true for all n in [0,2^32) '
+             '(composition of the C05 and C06 soundness theorems with the gap scan); the window diagnostics are exactly the least n < 200 that '
+             'fails or leaves the range, with its true outcome; syntax-error iff the value is rejected; junk tags carry exactly the surrounding text; '
+             'leftmost match; nplurals verdict iff; a total, in-range, onto declaration is silent; and, over the registry regenerated from data/languages '
+             'on every run, each own declaration is silent/usual and total on the window (vm_compute). Tied to the code by in-process correspondence '
+             'of Checker.check_plurals and an independent truthfulness oracle.',
+        design_ref='DESIGN.md 5 / C07',
+        technique='Coq proof (composition of C05/C06 theorems, list induction, vm_compute over the regenerated registry) + correspondence + truthfulness oracle',
+        note=NOTE_COMMON + ' Completeness of the regex search (no match => no declaration anywhere) is covered by correspondence only. D1 fixed by commit 6bd9347.'),
 }
 
 NA_REASON = 'check not built yet (work in progress; see DESIGN.md section 8 for build order)'
